@@ -18,6 +18,9 @@ import numpy as np
 import z3
 
 from . import core, nparr
+
+# evidence samples print formulas: keep z3's python pretty-printer from walking huge terms (a cylinder's vertex terms took minutes)
+z3.set_option(max_depth=8, max_args=12, max_visited=400, max_lines=6, max_width=200)
 from .core import Abort, Fraction, NotEncodable, Sym, SymBool, is_sym
 
 VERIF = os.path.dirname(os.path.dirname(os.path.abspath(__file__)))
@@ -782,8 +785,12 @@ def run_unit(prop_id, unit, tier, seed=0):
             res["samples"].append({"unit": unit.name, "obligation": o.name, "path_condition": [str(c).replace("\n", " ")[:160] for c in pr.path[:6]],
                                    "formula": str(o.prop).replace("\n", " ")[:300], "verdict": "unsat (holds for all inputs on this path)" if not pending or r_all == "unsat" else "see counts"})
     # reachability witness (vacuity guard): at least one completed path with satisfiable path condition
+    tried = 0
     for pr in prs:
         if pr.status == "ok":
+            tried += 1
+            if tried > 6:
+                break  # (each attempt may cost a solver timeout: a witness is looked for on the first 6 completed paths only)
             r, _ = _solve(eng, pr, [], unit.ob_ms, seed)
             if r == "unknown":
                 # definitional side constraints (fresh r with r*r == t, ...) outside the cone of influence of the path condition cannot make it
